@@ -568,7 +568,7 @@ def run_scenario(sc: Dict[str, Any], clock_plan: Optional[str] = None, max_evals
                         bad("link-relation-broken", f"{where}: {lk['type']} follower {fi} is at {F}, its relation to leader {li} at {L} gives {exp} (off by {err:.3g})",
                             key="link-relation-broken:" + lk["type"])
 
-            orig_step = optmod.OptimizerBase.optimize_clamp
+            orig_step = getattr(optmod.OptimizerBase, "optimize_clamp", None)
 
             def step(self_, clamp, method):
                 stats["steps"] += 1
@@ -603,8 +603,10 @@ def run_scenario(sc: Dict[str, Any], clock_plan: Optional[str] = None, max_evals
                 if float(np.linalg.norm(np.array(clamp.position) - after[ji])) > 1e-9:
                     stats["clamp_position_differs_from_grid"] = stats.get("clamp_position_differs_from_grid", 0) + 1
 
-            undo.append(seams.patch_attr(optmod.OptimizerBase, "optimize_clamp", step))
-            orig_rb, orig_sk = itermod.ClampOptimizationData.rollback, itermod.ClampOptimizationData.skip
+            if orig_step is not None:
+                undo.append(seams.patch_attr(optmod.OptimizerBase, "optimize_clamp", step))
+            cod = getattr(itermod, "ClampOptimizationData", None)
+            orig_rb, orig_sk = getattr(cod, "rollback", None), getattr(cod, "skip", None)
 
             def rb(self_):
                 stats["rollbacks"] += 1
@@ -614,8 +616,9 @@ def run_scenario(sc: Dict[str, Any], clock_plan: Optional[str] = None, max_evals
                 stats["skips"] += 1
                 return orig_sk(self_)
 
-            undo.append(seams.patch_attr(itermod.ClampOptimizationData, "rollback", rb))
-            undo.append(seams.patch_attr(itermod.ClampOptimizationData, "skip", sk))
+            if orig_rb is not None and orig_sk is not None:
+                undo.append(seams.patch_attr(cod, "rollback", rb))
+                undo.append(seams.patch_attr(cod, "skip", sk))
             try:
                 if sc.get("auto") and sketch is not None:
                     opt.auto_optimize(max_iterations=sc["iterations"], tolerance=1e-9, method=sc["method"])
